@@ -1138,8 +1138,99 @@ pub fn check_round(r: &Round, obs: &mut Obs) -> Result<(), Fail> {
     Ok(())
 }
 
+fn round_from(case: &Value) -> Option<Round> {
+    let pool: Vec<BuildCase> = case["pool"].as_array()?.iter().filter_map(BuildCase::from_json).collect();
+    let plans: Vec<Vec<usize>> = case["plans"].as_array()?.iter().map(|p| p.as_array().map(|a| a.iter().filter_map(|x| x.as_u64().map(|y| y as usize)).collect()).unwrap_or_default()).collect();
+    Some(Round { pool, plans, render: case["render"].as_bool().unwrap_or(false), repeat: case["repeat"].as_u64().unwrap_or(1) as usize })
+}
+
+fn digest_line(d: &Result<(Snapshot, u64), String>) -> String {
+    match d {
+        Ok((s, r)) => format!("{} {:016x}", snap_line(s), r),
+        Err(p) => format!("panic {}", panic_sig(p)),
+    }
+}
+
+/// Child-process entry `fqv __coldround <round.json>`: the FIRST thing this process does with the crate is the
+/// concurrent round (threads released together by a barrier) - whatever a first use initialises lazily is initialised
+/// under contention. Prints one line per (thread, pool item) execution that differs from the expected digests.
+pub fn coldround_main(args: &[String]) -> ! {
+    let text = std::fs::read_to_string(&args[0]).unwrap_or_default();
+    let v: Value = serde_json::from_str(&text).unwrap_or(Value::Null);
+    let Some(r) = round_from(&v["round"]) else { std::process::exit(3) };
+    let expected: Vec<String> = v["expected"].as_array().map(|a| a.iter().map(|x| x.as_str().unwrap_or("").to_string()).collect()).unwrap_or_default();
+    let barrier = std::sync::Barrier::new(r.plans.len());
+    let diffs: Vec<String> = std::thread::scope(|s| {
+        let hs: Vec<_> = r
+            .plans
+            .iter()
+            .enumerate()
+            .map(|(t, plan)| {
+                let (barrier, pool, expected) = (&barrier, &r.pool, &expected);
+                std::thread::Builder::new()
+                    .stack_size(16 << 20)
+                    .spawn_scoped(s, move || {
+                        barrier.wait();
+                        let mut out = Vec::new();
+                        for &i in plan.iter() {
+                            let d = digest_line(&digest(&pool[i], r.render));
+                            if Some(&d) != expected.get(i) && out.len() < 4 {
+                                out.push(format!("thread {} item {}: {} (expected {})", t, i, d, expected.get(i).cloned().unwrap_or_default()));
+                            }
+                        }
+                        out
+                    })
+                    .unwrap()
+            })
+            .collect();
+        hs.into_iter().flat_map(|h| h.join().unwrap_or_else(|_| vec!["a worker thread died".to_string()])).collect()
+    });
+    for d in diffs.iter().take(8) {
+        println!("COLDROUND differ {}", d);
+    }
+    println!("COLDROUND done {}", diffs.len());
+    std::process::exit(0)
+}
+
+/// The round executed as the very first use of the crate in a fresh process, against this (warm) process's sequential
+/// results.
+pub fn check_cold_round(r: &Round, obs: &mut Obs) -> Result<(), Fail> {
+    if std::env::var("FQV_IN_FUZZ").is_ok() {
+        return Ok(());
+    }
+    let expected: Vec<String> = r.pool.iter().map(|bc| digest_line(&digest(bc, r.render))).collect();
+    let Ok(exe) = std::env::current_exe() else { return Ok(()) };
+    let k = COLD_SEQ.fetch_add(1, std::sync::atomic::Ordering::SeqCst);
+    let path = std::env::temp_dir().join(format!("fqv-coldround-{}-{}.json", std::process::id(), k));
+    if std::fs::write(&path, json!({"round": round_json(r), "expected": expected}).to_string()).is_err() {
+        return Ok(());
+    }
+    let out = std::process::Command::new(exe).arg("__coldround").arg(&path).output();
+    let _ = std::fs::remove_file(&path);
+    let Ok(out) = out else { return Ok(()) };
+    let text = String::from_utf8_lossy(&out.stdout);
+    let done = text.lines().any(|l| l.starts_with("COLDROUND done"));
+    if !done {
+        return fail("cold_round_died", format!("the process running the round as its first use of the crate ended with {:?}: {} ({})", out.status.code(), String::from_utf8_lossy(&out.stderr).chars().take(300).collect::<String>(), round_json(r)));
+    }
+    if let Some(l) = text.lines().find(|l| l.starts_with("COLDROUND differ")) {
+        return fail("schedule_dependent:first_use_under_contention", format!("a fresh process whose first use of the crate is this round on {} threads: {} ({})", r.plans.len(), &l[17..], round_json(r)));
+    }
+    obs.label(&format!("cold_round_threads:{}", r.plans.len()));
+    obs.count("child_processes", 1);
+    obs.nontrivial(crate::engine::hash_value(&round_json(r)) ^ 0xC01D);
+    Ok(())
+}
+
 pub fn replay(_e: &Engine, case: &Value, obs: &mut Obs) -> Result<(), Fail> {
     let bad = || Fail { sig: "bad_replay".into(), msg: "cannot parse case".into() };
+    if case.get("kind").and_then(|k| k.as_str()) == Some("round") && case.get("cold").is_some() {
+        let r = round_from(case).ok_or_else(bad)?;
+        for _ in 0..12 {
+            check_cold_round(&r, obs)?;
+        }
+        return Ok(());
+    }
     if case.get("kind").and_then(|k| k.as_str()) == Some("round") {
         let pool: Vec<BuildCase> = case["pool"].as_array().ok_or_else(bad)?.iter().filter_map(BuildCase::from_json).collect();
         let plans: Vec<Vec<usize>> = case["plans"].as_array().ok_or_else(bad)?.iter().map(|p| p.as_array().map(|a| a.iter().filter_map(|x| x.as_u64().map(|y| y as usize)).collect()).unwrap_or_default()).collect();
@@ -1372,6 +1463,27 @@ pub fn run(e: &'static Engine) {
             jc.run_prop(4 << 20, &strat, total / shards, rhist_json, |h, o| {
                 o.label("part:renderer_histories");
                 check_rhistory(h, o)
+            });
+        }));
+    }
+    e.par(jobs);
+    // the same kind of round as the FIRST use of the crate in a fresh process (few items, many threads, one pass): lazily
+    // initialised tables and caches are then filled under contention
+    let rounds: u32 = e.tier.pick(48, 600);
+    let mut jobs: Vec<Job> = Vec::new();
+    for _ in 0..4 {
+        jobs.push(Box::new(move |jc: &mut JobCtx| {
+            let item = (1usize..=6, 0usize..4, 0usize..3, prop_oneof![1 => Just(None), 3 => (0u8..8).prop_map(Some)], any::<bool>()).prop_flat_map(|(v, li, mi, mask, fv)| {
+                let cell = crate::gens::Cell { version: v, level: Level::from_index(li), mode: Mode::from_index(mi) };
+                crate::gens::case_in_cell(cell, crate::gens::Force { mode: false, level: true, version: fv }, mask).prop_map(|(c, _)| c)
+            });
+            let strat = (vec(item, 1..4), prop_oneof![1 => 2usize..=8, 3 => Just(16usize)], any::<bool>()).prop_map(|(pool, threads, render)| {
+                let k = pool.len();
+                Round { pool, plans: (0..threads).map(|t| (0..k).map(|j| (j + t) % k).collect()).collect(), render, repeat: 1 }
+            });
+            jc.run_prop(6 << 20, &strat, rounds / 4, |r| { let mut j = round_json(r); j["cold"] = json!(true); j }, |r, o| {
+                o.label("part:cold_concurrent_rounds");
+                check_cold_round(r, o)
             });
         }));
     }
